@@ -148,7 +148,9 @@ def run_property(prop: str, tier: str, seed: int, only=None) -> int:
             [k], ex_["cond"], {"kind": out.get("kind"), "site": out.get("site"), "args": ex_["args"]}) is not None
         k["_witnessed"] = still
         if still:
-            kf_lines.append(f"KNOWN-FINDING: property={prop} {k['id']} {k['kind']}@{k['site']}: {k['what']}")
+            kd = k["kind"] if isinstance(k["kind"], str) else k["kind"][0] + "|.."
+            st_ = k["site"] if isinstance(k["site"], str) else k["site"][0] + "|.."
+            kf_lines.append(f"KNOWN-FINDING: property={prop} {k['id']} {kd}@{st_}: {k['what']}")
     # -- verdicts ----------------------------------------------------------------------------------------
     closed, inconc = [], []
     for r in results:
